@@ -22,7 +22,7 @@ RULE = ('kinds: tflag (TFLAG variable, valid flags from start+i*step incl. day/y
         'bounds with/without TSTEP attr), attrs (SDATE/STIME/TSTEP only), synth (ioapi updatetflag), cf ("unit '
         'since ref" with 20 reference spellings incl. time zones and rejected ones, units days/hours/minutes/'
         'seconds/weeks, calendars standard/gregorian/proleptic_gregorian/noleap/365_day/all_leap/366_day, '
-        'offsets up to centuries, bounds none/approx/time_bounds), atv (add_time_variable with and without '
+        'offsets up to centuries, bounds none/approx/time_bounds), atv (add_time_variable, also called a second time on the same object after the step or the later flags changed, with and without '
         'TFLAG, TSTEP up to 7 digits); CF time variables stored as float64, float32 (large values) and integers; 365/366-day calendars on whole days since 1 January across 29 February; reference years 1900-2100; non-trivial = at least two instants and a '
         'non-midnight or non-Jan-1 component somewhere; distinct = distinct case payload; time_bounds variables with gaps between the cells; updatetflag(overwrite=True) with and without startdate / tstep on files that already carry time flags')
 ASSUMPTIONS = ['python datetime arithmetic and strptime are trusted (the model works on integer seconds)',
@@ -184,7 +184,9 @@ def gen(rng, tier):
         else:
             nt = rng.randint(1, 5)
             sd, st, T, fl = _flags(rng, nt)
-            out.append(dict(kind='atv', sdate=sd, stime=st, tstep=T, flags=fl if rng.random() < 0.5 else None, n=nt))
+            # pre: the CF variables were synthesised once before, for another step with the same start and count
+            out.append(dict(kind='atv', sdate=sd, stime=st, tstep=T, flags=fl if rng.random() < 0.5 else None, n=nt,
+                            pre=rng.random() < 0.4))
     return out
 
 
@@ -332,6 +334,22 @@ def _impl_atv(case):
         f.createDimension('DATE-TIME', 2)
         v = f.createVariable('TFLAG', 'i', ('TSTEP', 'VAR', 'DATE-TIME'))
         v[:] = g.variables['TFLAG'][:]
+    if case.get('pre'):
+        # an earlier synthesis on the same object for a time axis with the same start and the same number of steps but
+        # other instants behind the first: what is synthesised now must not depend on it
+        now = (f.TSTEP, None if not case['flags'] else np.array(f.variables['TFLAG'][:]))
+        f.TSTEP = 10000 if int(case['tstep']) != 10000 else 20000
+        if case['flags']:
+            w = f.variables['TFLAG']
+            first = case['flags'][0]
+            for i in range(1, n):
+                w[i, :, 0] = first[0]
+                w[i, :, 1] = (first[1] // 10000 * 10000 + i) % 240000 if first[1] // 10000 * 10000 + i != first[1] else first[1] + 1
+        add_time_variable(f, 'time')
+        add_time_variable(f, 'time_bounds')
+        f.TSTEP = now[0]
+        if case['flags']:
+            f.variables['TFLAG'][:] = now[1]
     add_time_variable(f, 'time')
     add_time_variable(f, 'time_bounds')
     t = f.variables['time']
